@@ -50,6 +50,15 @@ def is_zero(v):
     return False
 
 
+class C:
+    """a closure value: the closure function and the values of its captures (for helpers that take a callable)"""
+    def __init__(self, clo, caps):
+        self.clo, self.caps = clo, caps
+
+    def __repr__(self):
+        return "closure"
+
+
 class U:
     def __init__(self, why=""):
         self.why = why
@@ -259,6 +268,8 @@ class DegEval:
                 return S(name, dict(enumerate(ops)))
             if "::" in name and not name.startswith("closure:"):
                 return S(name.rsplit("::", 1)[0], dict(enumerate(ops)))
+            if name.startswith("closure:") and self.prog.fns.get(name[len("closure:"):]) is not None:
+                return C(self.prog.fns[name[len("closure:"):]], ops)
             return U("agg")
         if k == "phi":
             out = None
@@ -311,6 +322,20 @@ class DegEval:
                     return D(0)
                 if name in ("map",):
                     return S("Option", {0: r})
+                return r
+        # a callable parameter bound to a closure by the caller: `f(self.top_left)` inside `map_corners(self, f)`
+        if name in ("call", "call_mut", "call_once") and "ops::function" in path and len(args) == 2 and isinstance(args[0], C) and isinstance(args[1], S) and args[1].ty == "tuple":
+            clo = args[0].clo
+            if clo not in self.stack and depth < 10:
+                cenv = {i + 2: v for i, v in args[1].fields.items() if isinstance(i, int)}
+                for i, c in enumerate(args[0].caps):
+                    cenv[("upvar", i)] = c
+                self.stack.append(clo)
+                try:
+                    r = self.eval(self.ret(clo), cenv, clo, depth + 1)
+                    self.conditions(clo, cenv, depth + 1)
+                finally:
+                    self.stack.pop()
                 return r
         # bool::then(cond, || value) / then_some(cond, value): Some(value) or None, the condition carries no position
         if name in ("then", "then_some") and path.startswith(("core::bool", "<impl bool>", "bool::")) and len(targs) == 2:
